@@ -92,6 +92,10 @@ FUNCS = dict(
     normal=normal_density,
     parab=parab_density,
 )
+# model functions given as strings (library name / SymPy style); kafe2 resolves them itself
+FUNCS["lib-linear"] = "linear_model"
+FUNCS["sympy-lin"] = "slin: x a=1.1 b=0.4 -> a * x + b"
+FUNCS["sympy-exp"] = "sexp: x A0=1.4 k=0.25 -> A0 * exp(k * x)"
 
 N = 8  # data points of xy / indexed objects (fitted problems need >= 8 points, DESIGN 3.4)
 HIST_EDGES = [0.0, 1.0, 2.0, 3.5, 4.5, 6.0]
@@ -357,6 +361,8 @@ def build_fit(spec):
     variant = spec.get("variant", "base")
     minimizer = spec.get("minimizer", "iminuit")
     kw = dict(minimizer=minimizer)
+    if spec.get("dea"):
+        kw["dynamic_error_algorithm"] = spec["dea"]
     poisson = cost in POISSON_COSTS
     val = V(v, N)
     n = N
@@ -389,8 +395,10 @@ def build_fit(spec):
             fit = k2.HistFit(c, FUNCS[spec["model"]], **(dict(cost_function=cost_arg, **hkw) if cost else hkw))
         elif ft == "unbinned":
             n = len(UNB_DATA)
+            kw.pop("dynamic_error_algorithm", None)
             fit = k2.UnbinnedFit(UNB_DATA, FUNCS[spec["model"]], **(dict(cost_function=cost_arg, **kw) if cost else kw))
         elif ft == "custom":
+            kw.pop("dynamic_error_algorithm", None)
             fit = k2.CustomFit(custom_cost, **kw)
         else:
             raise ValueError(ft)
@@ -675,6 +683,9 @@ def observe_fit_static(fit):
     o["parameter_names"] = _get(lambda: list(fit.parameter_names))
     o["ndf"] = _get(lambda: fit.ndf)
     o["did_fit"] = _get(lambda: bool(fit.did_fit))
+    # before a fit parameter_errors are initial step sizes (not part of the statement): only their availability
+    o["parameter_errors:available"] = _get(lambda: len(list(fit.parameter_errors)) == len(list(fit.parameter_names)))
+    o["dynamic_error_algorithm"] = _get(lambda: fit.dynamic_error_algorithm)
     o["has_errors"] = _get(lambda: fit.has_errors)
     o["has_data_errors"] = _get(lambda: fit.has_data_errors)
     o["has_model_errors"] = _get(lambda: fit.has_model_errors)
